@@ -8,10 +8,10 @@ NOTE = ("Trusted: Lean 4.33 kernel; axioms propext/Classical.choice/Quot.sound o
 
 CLAIMS = {
  'C01': dict(cat='proof', tech='Lean 4 theorems legal_exact / perft_exact (model = FIDE spec) + differential correspondence model vs Go + spec oracle',
-   text="PROVED on the Lean model (Props/C01, C01a): for every well-formed position within the counter range the moves the engine treats as playable are exactly "
+   text="PROVED on the Lean model (Props/C01, C01a): for every well-formed position - with no restriction on the move counters (C01c: legal_exact_any, perft_exact_any) - the moves the engine treats as playable are exactly "
         "the FIDE-legal moves of the specification - none missing, none extra, none duplicated (legal_exact), the generator yields exactly the pseudo-legal moves incl. "
         "all castling conditions (genMoves_exact), successors are the FIDE successors (engineLegal_succ) and perft equals the true count for every depth (perft_exact, induction). "
-        "The model is tied to the Go code by correspondence on every run: ordered pseudo-legal list, legal list, check flag, perft (also through the repository's own cmd/perft binary) on corpus, "
+        "The model is tied to the Go code by correspondence on every run: legal move list (as a multiset), check flag, attack answers after moves, perft (also through the repository's own cmd/perft binary) on corpus, "
         "playout, random-material and exhaustive single-attacker positions; independently the Go legal move set is compared with the executable spec.", ref='5/C01, 10.4'),
  'C02': dict(cat='proof', tech='Lean 4 refinement theorem makeMove_refines (model MakeMove = Fide.apply) + correspondence of every field',
    text="PROVED (Props/C02): for every shape-consistent position and every move of the shape the generators produce, MakeMove does not panic and its result, seen through the "
@@ -53,7 +53,7 @@ CLAIMS = {
         "positions differing in exactly one component hash differently given non-zero/distinct keys, and the 781 keys dumped from the running engine are pairwise distinct and non-zero (realKeys_distinct). "
         "Tie: hash after every move/null move/reload compared with model and from-scratch hook; distinctness on generated single-component pairs incl. every en-passant file and castling set.", ref='5/C09, 10.4'),
  'C10': dict(cat='proof', tech='Lean 4 invariant theorems WF_makeMove / WF_reachable + correspondence of every field + independent Go-side consistency check',
-   text="PROVED (Props/C10, C10b): every move the engine plays from a well-formed position yields a well-formed position - all clauses of C10 (WF_makeMove), hence along every legal move sequence (WF_reachable); "
+   text="PROVED (Props/C10, C10b): every move the engine plays from a well-formed position yields a well-formed position - all clauses of C10 (WF_makeMove), hence along every legal move sequence (WF_reachable); C10d: the same for all counter values and for null moves out of check, along every sequence of any length (c10_move_any, c10_null_any, c10_reach_any); "
         "WF is the spec's well-formedness seen through the abstraction (WF_iff_spec); null moves keep the shape. Tie: every field compared after every operation; an independent mailbox check of the clauses on the Go side "
         "(also after the string path); check clause against the spec; exhaustive single-attacker positions.", ref='5/C10, 10.4'),
  'C11': dict(cat='proof', tech='Lean 4 theorems parseFen_total and fen_roundtrip on the byte-level FEN model + correspondence on valid and malformed streams',
@@ -87,7 +87,7 @@ CLAIMS = {
  'C18': dict(cat='proof', tech='Lean 4 theorems: swap list = minimax, pruning keeps the sign, model attacker sequence = spec attackers, sign(SEE) = sign(spec minimax) for legal captures (<= 32 men) + correspondence + spec oracle on constructed batteries',
    text="PROVED (Props/C18): the unpruned swap list equals the exchange minimax exactly, the early exit never changes the sign (swap_sign), and the model's loop is that swap list over its attacker sequence (see_eq_swap, see_sign). "
         "C18b: the model's incrementally maintained attacker sequence equals the specification's recomputed least attackers (see_attackers_spec), the king rule agrees (see_king_rule), hence for every legal "
-        "non-en-passant capture of a well-formed position with at most 32 men sign(SEE) = sign(spec minimax) (see_sign_spec_partial; the 32-men bound is necessary). Tie: exact value vs model and sign vs recursive spec minimax on all "
+        "non-en-passant capture of a well-formed position with at most 32 men sign(SEE) = sign(spec minimax) (see_sign_spec_partial; the 32-men bound is necessary and follows from legal material: C18c see_sign_spec_legal, see_sign_spec_reach for every position reached from a legal root). Tie: exact value vs model and sign vs recursive spec minimax on all "
         "legal captures of generated positions and constructed battery / king-adjacent exchanges.", ref='5/C18, 10.4'),
  'C19': dict(cat='proof', tech='Lean 4 theorems (SortIndex visiting = sorted permutation, scoring touches only score bits) + regenerated accessor tie + correspondence',
    text="PROVED (Props/C19, C19b): visiting by SortIndex is a permutation in non-increasing score order for lists of any length; scoring changes only the score bits for every heuristic state; generated words carry no score bits; "
